@@ -13,10 +13,70 @@ where
     S::Error: Send + 'static,
     M: Fn(&S::Error) -> Outcome + Send + Sync + 'static,
 {
+    caller_linger(w, svc, req, pause, Linger::No, map)
+}
+
+/// What the caller does with the call future once it has resolved: a completed future may
+/// legally be kept alive and dropped later (e.g. when polled through `&mut`/`pin!` inside a
+/// `select!` or a struct field); cleanup that a layer does in `Drop` then runs late.
+#[derive(Clone, Copy, Debug, PartialEq, Eq)]
+pub enum Linger {
+    No,
+    /// keep the completed future for this many further scheduling steps
+    Polls(u32),
+    /// keep it for this much virtual time
+    Us(u64),
+}
+
+pub fn caller_linger<S, M>(w: Arc<World>, svc: S, req: Req, pause: bool, linger: Linger, map: M) -> impl FnOnce() -> ActorFut + Send + 'static
+where
+    S: Service<Req, Response = Resp> + Send + 'static,
+    S::Future: Send + 'static,
+    S::Error: Send + 'static,
+    M: Fn(&S::Error) -> Outcome + Send + Sync + 'static,
+{
     move || {
         Box::pin(tokio::task::unconstrained(async move {
             let mut svc = svc;
-            do_call(&w, &mut svc, req, pause, &map).await;
+            if linger == Linger::No {
+                do_call(&w, &mut svc, req, pause, &map).await;
+                return;
+            }
+            let id = req.id;
+            match std::future::poll_fn(|cx| svc.poll_ready(cx)).await {
+                Ok(()) => {
+                    w.log(Ev::OuterReady { req: id, ok: true });
+                }
+                Err(e) => {
+                    w.log(Ev::OuterReady { req: id, ok: false });
+                    w.log(Ev::Resolve { req: id, out: map(&e) });
+                    return;
+                }
+            }
+            let mut fut = Box::pin(svc.call(req));
+            w.log(Ev::Issued { req: id });
+            if pause {
+                yield_once().await;
+            }
+            w.log(Ev::FirstPoll { req: id });
+            let out = (&mut fut).await;
+            let o = match &out {
+                Ok(r) => Outcome::ok(r),
+                Err(e) => map(e),
+            };
+            w.log(Ev::Resolve { req: id, out: o });
+            drop(out);
+            match linger {
+                Linger::Polls(k) => {
+                    for _ in 0..k {
+                        yield_once().await;
+                    }
+                }
+                Linger::Us(n) => tokio::time::sleep(std::time::Duration::from_micros(n)).await,
+                Linger::No => {}
+            }
+            w.log(Ev::Note { what: format!("late-drop r{id}") });
+            drop(fut);
         }))
     }
 }
